@@ -40,7 +40,7 @@ VOCAB = [
     "__pycache__/a.cpython-312.pyc", ".hidden.py", "sub/__init__.pyi", "a/__init__.py", "sub/deep/__init__.py", "sub/deep/d.py", "a.pyc", "sub/a.py", "ns/sub2/e.py",
 ]
 LAYOUTS = ["regular", "namespace", "namespace-two-portions", "regular-then-module", "module-then-regular", "regular-twice", "pkgutil-namespace-two-portions"]
-EXTEND = "__path__ = __import__('pkgutil').extend_path(__path__, __name__)\n"
+EXTEND = '"""A pkgutil-style namespace package (the declaration is not the first thing in the file)."""\n' + "__path__ = __import__('pkgutil').extend_path(__path__, __name__)\n"
 NMAX = tiered(3, 4)
 
 
@@ -362,9 +362,20 @@ PERMS = {n: list(itertools.permutations(range(n))) for n in range(5)}
 _SAME_NAME = [i for i, v in enumerate(VOCAB) if v in ("a.py", f"a.{SO}", "a.pyc", "a/__init__.py")]
 
 
-def same_module_name_from_several_files(items):
-    """Two or more RUNTIME files provide the module name `a` (a.py, a.<abi>.so, a.pyc, a/__init__.py) - a.pyi is a stub and does not count."""
-    return sum(1 for i in items if i in _SAME_NAME) >= 2
+def same_module_name_from_several_files(layout, items, portions):
+    """Several RUNTIME files provide the module name `a` in a way griffe cannot rank: two of a.py / a.<abi>.so / a.pyc in the same
+    directory (the one os.walk lists last wins), or two of a.py / a.<abi>.so / a.pyc / a/__init__.py in different portions of the
+    package (the later portion wins). a.py next to a/__init__.py in ONE directory is handled correctly (the package directory is
+    always walked after its parent's files) and is not part of the finding; a.pyi is a stub and never counts."""
+    portions = realize_value(portions)
+    where = {}
+    for i, it in enumerate(items):
+        if it in _SAME_NAME:
+            side = ((portions >> i) & 1) if layout in TWO else 0
+            where.setdefault(side, []).append(VOCAB[it])
+    files_same_dir = any(sum(1 for f in fs if f != "a/__init__.py") >= 2 for fs in where.values())
+    across = len(where) == 2
+    return files_same_dir or across
 
 
 def namespace_portion_shadowed(layout, items, portions):
